@@ -5,8 +5,15 @@ evaluated on the behaviour of the real multiplexer alone."""
 import json
 import os
 import re
+import resource
 import common
 from common import Rng, coq_z, coq_list, coq_bool
+
+# the model walks byte lists of up to 2^16 elements recursively: coqc (a child process) needs a deep stack
+try:
+    resource.setrlimit(resource.RLIMIT_STACK, (resource.RLIM_INFINITY, resource.RLIM_INFINITY))
+except (ValueError, OSError):
+    pass
 
 PROP_FILES = ["theories/Properties/C14.v"]
 
@@ -286,7 +293,9 @@ def gen_raw_case(rng, nops):
             continue
         idv = rng.below(n) if n > 0 else 0
         if z < 45:
-            ln = rng.choice([0, 1, 2, 10, 79, 100, 101, 500, 1000, 3000, 65535, rng.below(5000)])
+            ln = rng.choice([0, 1, 2, 10, 79, 100, 101, 500, 1000, 3000, rng.below(5000)])
+            if rng.chance(1, 60):
+                ln = 65535
             present = ln
             if rng.chance(1, 12):
                 present = rng.below(ln + 1)      # truncated payload (the rest may follow later, or never)
@@ -336,7 +345,9 @@ def gen_flood_case(rng):
             opened.append(i)
     targets = opened if (opened and rng.chance(4, 5)) else list(range(nacc))
     for _ in range(rng.range(5, 40)):
-        ln = rng.choice([1, 10, 100, 999, 1000, 1001, 5000, 65535, rng.range(1, 3000)])
+        ln = rng.choice([1, 10, 100, 999, 1000, 1001, 5000, rng.range(1, 3000)])
+        if rng.chance(1, 80):
+            ln = 65535
         ops.append(["rawframe", raw_hdr(FK_DATA, SK_CONNECT, rng.choice(targets)), ln, ln])
         if rng.chance(1, 6):
             ops.append(["rawframe", raw_hdr(rng.choice([FK_OPEN, FK_CLOSE]), SK_CONNECT, rng.choice(targets)), -1, 0])
